@@ -35,7 +35,8 @@ for mp in sorted(glob.glob(os.path.join(VERIF, "seeded", "*", "meta.json"))):
     def matches(k, pat):
         return k == pat or (pat.endswith("*") and k.startswith(pat[:-1])) or k.split("(")[0] == pat.split("(")[0]
     hit = [k for k in keys if any(matches(k, p) for p in recorded)]
-    status[mid] = dict(result="caught" if keys else "MISSED", check=prop, head=head, keys_fired=keys[:6],
+    ran = "SUMMARY property=" in out
+    status[mid] = dict(result="caught" if keys else ("MISSED" if ran else "DID-NOT-RUN (patch or build failed)"), check=prop, head=head, keys_fired=keys[:6],
                        recorded_key_fired=bool(hit), wall_s=round(time.time() - t0, 1))
     print(mid, status[mid]["result"], "recorded-key" if hit else "other-key" if keys else "-", keys[:2], flush=True)
     json.dump(status, open(status_path, "w"), indent=1, sort_keys=True)
